@@ -276,6 +276,11 @@ class OpHistory(Harness):
 
     def _after_event(self, g, m, lg, ref, st, was_running, mp_before):
         self._sync_logs(g, m, lg, ref, st)
+        if "C03" in self.props:
+            if m.is_running:
+                from .matching import _Monitors
+                _Monitors(g, ("C03",)).check_uncrossed(m)
+            return
         self._check_book(g, m, ref, st)
         if "C08" in self.props:
             mid = self._ref_mid(ref)
@@ -302,6 +307,8 @@ class OpHistory(Harness):
 
     def _after_tick(self, g, m, lg, ref, st, mp_before, mid_before):
         self._sync_logs(g, m, lg, ref, st)
+        if "C03" in self.props:
+            return
         now = m.get_time()
         if "C04" in self.props:
             for o in ref.orders:
@@ -469,3 +476,11 @@ class C08_OpHistory(OpHistory):
     props = ("C08",)
     with_switch = True
     reach = ("nontrivial", "expiry", "partial-fill", "switch", "event-while-stopped")
+
+
+class C03_OpHistory(OpHistory):
+    """the round that follows every accepted order / cancel leaves no executable pair (incl. after cancels and
+    expiries un-block market orders resting on both sides)"""
+    props = ("C03",)
+    with_switch = False
+    reach = ("nontrivial", "expiry", "post:uncrossed-two-sided", "post:both-market")
